@@ -19,7 +19,8 @@ def make_jobs(prop, r, n, quick):
                  "C15": ("call", "batch", "batch", "raise"), "C16": ("call", "call", "batch", "raise")}.get(prop, ("call", "batch", "res", "raise"))
         p = progs.random_prog(r, nfn=nfn, features=feats)
         nops = r.randint(5, 9)
-        ops = progs.random_ops(r, nfn, nops, ctx=(prop in ("C16", "C10") or r.random() < 0.3), batch=(prop != "C16" or r.random() < 0.3))
+        ops = progs.random_ops(r, nfn, nops, ctx=(prop in ("C16", "C10") or r.random() < 0.3), batch=(prop != "C16" or r.random() < 0.3),
+                               par=(0.25 if prop in ("C02", "C10") and i % 3 == 0 else 0.0))
         if prop == "C15":
             ops = [o for o in ops if o["op"] != "Call" or r.random() < 0.5]
         if prop == "C16" and r.random() < 0.5:
@@ -88,7 +89,9 @@ def run(prop, tier):
         rep.cov["distinct_nontrivial"] = len({json.dumps(j["prog"]) + json.dumps(j["ops"]) for j in jobs})
         rep.cov["rule"] = ("random well-founded programs (2-4 memento functions, <=3 steps each: nested calls with context "
                            "overrides, batches with duplicates/failing elements, resources, raises) x random root histories "
-                           "(calls with modifiers and context, call_batch / map_over_range, forget, forget_all) x "
+                           "(calls with modifiers and context, call_batch / map_over_range, forget, forget_all; C02/C10: in a third of the "
+                           "histories also 2-3 root calls made at the same time by different threads under a seeded schedule of the "
+                           "deterministic thread scheduler) x "
                            "{filesystem, filesystem+cache, memory}; one evaluation = one root operation with the full memento "
                            "projection afterwards")
         rep.sample({"prog": jobs[0]["prog"], "ops": jobs[0]["ops"][:4],
